@@ -21,6 +21,15 @@ CHECKS = {
  "C07": ("DESIGN.md section 5 C07",
    "Same bounded histories as C06 with the limits as solver variables (count limit 0..6, size limit 0..200000, changed at arbitrary points): after every operation Count() and Size() equal the reference model's number of unread packets and sum of lengths+2, and Write returns ErrFull exactly when the count or size limit would be exceeded, accepting every packet that fits.",
    "Bounded as C06. The 4 MiB cap without a size limit is not reachable within k <= 5 packets of <= 65535 bytes and is outside this check's bound."),
+ "C09": ("DESIGN.md section 5 C09, section 2.9",
+   "Symbolic-schedule bounded model checking of the real deadline.Deadline code: a setter goroutine performs n Set calls with symbolic times (zero / past / future) and symbolic clock advances, runtime timers are a model whose expiries are dispatched at any later scheduler step and whose callbacks run as their own goroutines, an observer goroutine takes snapshots at arbitrary moments. Which goroutine or timer moves at each step is a vector of solver variables (one merged symbolic world, not enumerated runs); the solver shows that Done/Err are signalled only when the most recent Set time has passed, never by a stale timer, that Set after expiry yields a fresh open channel, that Deadline reports the last Set, and that after all set times have passed Done/Err are signalled exactly when the last Set was non-zero. A counterexample is re-executed concretely in the engine and replayed natively under a schedule controller on instrumented sources with a fake clock.",
+   "Bounded: n Set calls (2 quick / 3 thorough), 1 observation, scheduler steps per phase bounded with the step-bound obligation discharged; timers and the clock are a model (time package contract: Stop/Reset report whether the timer was active; an expired timer may run its callback arbitrarily late); goroutines are atomic between scheduling points (lock, channel, select, wait, atomics); trusted: go/ssa, engine, z3."),
+ "C16": ("DESIGN.md section 5 C16",
+   "SMT check of the real LossFilter code over streams of k datagrams with symbolic chance (any int), symbolic payloads (length 0..1500) and the random draw as an arbitrary value in [0,100) per datagram: a datagram is forwarded exactly when draw >= chance (so chance <= 0 forwards all, >= 100 none, and under a uniform draw the drop probability is clamp(chance,0,100)/100), forwarded datagrams are the same objects in arrival order, forwarded exactly once, with payload and addresses unchanged.",
+   "The statistical clause is reduced to the comparison identity under the contract that math/rand.Intn(100) is uniform on [0,100); that contract is outside the claim. Streams bounded by k (3 quick / 6 thorough); the filter is stateless."),
+ "C20": ("DESIGN.md section 5 C20",
+   "SMT check (bit-vectors, byte arrays as array terms) of the XorBytes that this toolchain builds (xor_generic.go -> crypto/subtle.XORBytes, Go part executed from SSA): for all lengths 0..n of a and b independently, dst length up to n+3, all start offsets 0..7 inside guard-byte-padded backing arrays, all contents, and the aliasing patterns dst==a and dst==b, the result equals min(len a, len b), dst[i] = a[i]^b[i] on the common prefix and every other byte of the three backing arrays (guard bytes included) is unchanged.",
+   "The assembly kernel crypto/subtle.xorBytes cannot be encoded and is replaced by its documented contract, so this check decides the repository's wrapper and the Go part of the standard library function, not the kernel; xor_old.go and xor_arm.go are not compiled by any installed toolchain and are outside the claim. n = 9 quick / 24 thorough."),
 }
 
 def main():
